@@ -74,7 +74,7 @@ RUNTIME_C12 = {
     ],
 }
 PROPS["C05"] = {
-    "verus_units": ["state_tree"],
+    "verus_units": ["state_tree", "delay_history"],
     "kani_units": [RUNTIME_C05],
     "floor": {"obligations": 50},
     "trusted_base": ST_TRUSTED + [
@@ -90,7 +90,7 @@ PROPS["C05"] = {
         "that mirgen/bytecodegen/wasmgen emit PushStateOffset/PopStateOffset/GetState/Delay/Mem whose dynamic cursor equals path_to_address of the call site, and that the cursor is back at 0 when dsp returns: a statement about all programs and a 4.8 kLoC recursive generator over interned ASTs; no contract within reach",
         "state_get_host / state_set_host (copy through wasmtime linear memory)",
     ],
-    "explanation": "C05 run-time half: (i) layout arithmetic (total_size, path_to_address = prefix sums, children tile the parent: lemma_addr_in_bounds, lemma_node_push) proved in Verus; (ii) each run-time primitive touches exactly the words of the cell at the cursor (Kani, bit-precise); (iii) VM and WASM host primitives perform the same transformation of the flat words (Kani relational harnesses); (iv) k-step delay history lemma over the one-step spec (Verus).",
+    "explanation": "C05 run-time half: (i) layout arithmetic (total_size, path_to_address = prefix sums, children tile the parent: lemma_addr_in_bounds, lemma_node_push) proved in Verus; (ii) each run-time primitive touches exactly the words of the cell at the cursor (Kani, bit-precise); (iii) VM and WASM host primitives perform the same transformation of the flat words (Kani relational harnesses); (iv) k-step delay history lemma over the one-step spec (Verus unit delay_history: feeding x0,x1,.. and reading with delay d in [1,len-1] returns x[k-d], 0 before that).",
     "samples": [
         {"obligation": "path_to_address::ensures", "clause": "r == Some((addr_off(self,path), size(node_at(self,path)))) iff wf_path"},
         {"obligation": "vm_delay_one_step_spec", "clause": "res == words[pos+2+(w+len-d)%len]; words'[pos]=r; words'[pos+1]=(w+1)%len; words'[pos+2+w]=input; all other words unchanged"},
